@@ -92,6 +92,10 @@ def run(ctx: core.Ctx):
         if init:
             for i in range(len(S.objs)):
                 S.initialize(i)
+            if rng.random() < 0.5:
+                # update callbacks that read the attribute they are told about: "at any time" includes the time of the notification
+                for i in range(len(S.objs)):
+                    S.reg(i, 1)
         n = rng.choice([0, 1, 5, 30, 120, 400]) if not thorough else rng.choice([0, 1, 5, 30, 120, 400, 1000])
         hist = gen_history(rng, T, n)
         # values on which the model is silent (exotic numeric syntax somewhere in the converter chain) stay out of the binding stream
@@ -126,6 +130,12 @@ def run(ctx: core.Ctx):
             ctx.count("status:" + st)
             sent0 = len(S.conn.sent)
             r = S.msg(st, su, fn, val)
+            if S.stale:
+                st_ = S.stale[0]
+                ctx.violation(f"{st_['class']}: an update callback told {st_['function']} = {st_['told']} read the attribute at that moment and got {st_['attribute_reads']}: "
+                              "the attribute does not read the most recent value the device reported",
+                              {"path": "l3-callback-read", "class": st_["class"], "function": fn, "value": val}, {"kind": "stale-in-callback"})
+                S.stale = []
             if r.startswith("EXC"):
                 ctx.count("real:exception-in-handler")
             key = (su, fn)
